@@ -4,6 +4,7 @@ pixel grid (not property obligations).
 -/
 import OdcGeo.Lemmas.C16
 import Mathlib.Tactic.Ring
+import Mathlib.Data.List.Perm.Basic
 import Mathlib.Tactic.Linarith
 import Mathlib.Algebra.Order.Field.Rat
 
@@ -175,5 +176,46 @@ theorem foldl_union_spec (acc : Rect) (ss : List Rect) :
         simp only [Rect.union]; omega
       · exact ht u (by simp [hu])
 
+
+/-! ### folds of a commutative, idempotent operation do not depend on the order of the list -/
+
+theorem foldl_absorb {α : Type} (f : α → α → α) (hrc : ∀ a b c, f (f a b) c = f (f a c) b)
+    (hid : ∀ a b, f (f a b) b = f a b) (l : List α) (x : α) (hx : x ∈ l) (acc : α) :
+    l.foldl f acc = l.foldl f (f acc x) := by
+  induction l generalizing acc with
+  | nil => cases hx
+  | cons y ys ih =>
+    simp only [List.foldl]
+    rcases List.mem_cons.mp hx with rfl | hx
+    · rw [hid]
+    · rw [ih hx (f acc y), hrc]
+
+theorem foldl_perm_head {α : Type} (f : α → α → α) (hrc : ∀ a b c, f (f a b) c = f (f a c) b)
+    (hid : ∀ a b, f (f a b) b = f a b) (hidem : ∀ a, f a a = a) (hcomm : ∀ a b, f a b = f b a)
+    (r r' : α) (ss ss' : List α) (p : (r :: ss).Perm (r' :: ss')) :
+    ss.foldl f r = ss'.foldl f r' := by
+  haveI : RightCommutative f := ⟨hrc⟩
+  have e1 : ss.foldl f r = (r :: ss).foldl f r := by simp [List.foldl, hidem]
+  have e2 : ss'.foldl f r' = (r' :: ss').foldl f r' := by simp [List.foldl, hidem]
+  have hr : r ∈ r' :: ss' := p.subset (List.mem_cons_self ..)
+  rw [e1, e2, p.foldl_eq r, foldl_absorb f hrc hid _ r' (List.mem_cons_self ..) r,
+    foldl_absorb f hrc hid _ r hr r', hcomm r r']
+
+theorem Rect.union_rc (a b c : Rect) : (a.union b).union c = (a.union c).union b := by
+  simp only [Rect.union, Rect.mk.injEq]; omega
+theorem Rect.union_absorb (a b : Rect) : (a.union b).union b = a.union b := by
+  simp only [Rect.union, Rect.mk.injEq]; omega
+theorem Rect.union_self (a : Rect) : a.union a = a := by
+  cases a; simp only [Rect.union, Rect.mk.injEq]; omega
+theorem Rect.union_comm (a b : Rect) : a.union b = b.union a := by
+  simp only [Rect.union, Rect.mk.injEq]; omega
+theorem Rect.rawInter_rc (a b c : Rect) : (a.rawInter b).rawInter c = (a.rawInter c).rawInter b := by
+  simp only [Rect.rawInter, Rect.mk.injEq]; omega
+theorem Rect.rawInter_absorb (a b : Rect) : (a.rawInter b).rawInter b = a.rawInter b := by
+  simp only [Rect.rawInter, Rect.mk.injEq]; omega
+theorem Rect.rawInter_self (a : Rect) : a.rawInter a = a := by
+  cases a; simp only [Rect.rawInter, Rect.mk.injEq]; omega
+theorem Rect.rawInter_comm (a b : Rect) : a.rawInter b = b.rawInter a := by
+  simp only [Rect.rawInter, Rect.mk.injEq]; omega
 
 end OdcGeo.C16
